@@ -78,6 +78,10 @@ def gen(rng, cid, tier, plugin=None, pid0=True):
         scn["dtype_unknown"] = True  # children discovered through the lstat fallback
     if rng.random() < 0.1:
         scn["xattr_fail"] = rng.choice(["EPERM", "ENOTSUP"])
+    if rng.random() < (0.5 if args.get("kernelkill") else 0.15):
+        # transient cgroups: the manager rmdir()s a leaf the moment cgroup.kill was written / its last process was signalled,
+        # so whatever oomd still does to the victim after the point of no return fails
+        scn["vanish_after_kill"] = True
     return scn, {"plugin": plugin, "patterns": pats, "args": args}
 
 
@@ -165,6 +169,7 @@ def judge(case, results):
     nk, ni = containment(v, scn, res, case.meta["args"])
     v.count("kill_or_cgroupkill_events", nk)
     v.count("invocation_ticks", ni)
+    v.count("victims_removed_mid_kill", sum(1 for e in res.events if e.get("ev") == "vanish"))
     v.count("plugin:" + case.meta["plugin"])
     for k in ("recursive", "kernelkill"):
         if case.meta["args"].get(k) == "true":
